@@ -64,7 +64,15 @@ def _kernel_layers(rec, clause):
             "sys.exit(1 if res['failures'] else 0)\n")
 
 
+def _mul_permuted(rec, clause):
+    _, _, _, hk, kind = rec["id"].split(".")
+    model = (clause.get("model") or {}).get("inputs", {})
+    return ("import sys, json\nfrom native.replay_functional import multiply_permuted\n"
+            f"sys.exit(multiply_permuted({hk!r}, {kind!r}, json.loads({json.dumps(json.dumps(model, default=str))})))\n")
+
+
 GENERATORS = [
+    (re.compile(r"^C09\.multiply\.permuted_product_inputs\."), _mul_permuted),
     (re.compile(r"^C(01|03|06|11)\.(kernel|semiring)\."), _kernel_layers),
     (re.compile(r"^C(19|10)\.frame\."), _frame),
     (re.compile(r"^C18\."), _c18),
